@@ -384,6 +384,8 @@ impl Check for C14 {
                     named_files.push(f);
                 }
             }
+            // a path printed relative to the working directory names the file it resolves to
+            let path = path.map(|p| if p.starts_with('/') { p } else { format!("{}/{}", vfs.reported_cwd, p) });
             if let Some(p) = path.as_deref().map(normalize) {
                 if !named_files.contains(&p) {
                     named_files.push(p);
